@@ -455,13 +455,14 @@ func (g *gen6) listDetails(path string) {
 	}
 }
 
-func (g *gen6) kids(path string, depth int) {
+func (g *gen6) kids(path string, depth int) int {
 	n := 1 + g.r.Intn(4)
 	for i := 0; i < n; i++ {
 		g.seq++
 		name := fmt.Sprintf("%s%d", []string{"n", "leafy", "list", "type-x", "key", "config"}[g.r.Intn(6)], g.seq)
 		g.node(fmt.Sprintf("%s.children.%d", path, i), depth, name)
 	}
+	return n
 }
 
 func (g *gen6) module() {
@@ -522,7 +523,33 @@ func (g *gen6) module() {
 	g.descRef("typedefs.td1")
 	g.ind -= 2
 	g.line("}")
-	g.kids("", 1)
+	ntop := g.kids("", 1)
+	if g.r.Intn(2) == 0 {
+		// what a refine states is written in the module too: it is read back from the refined node
+		g.line("grouping gr { container rc { leaf rl { type string; } } }")
+		sp := fmt.Sprintf(".children.%d", ntop)
+		g.exp = append(g.exp, exp6{path: sp + ".ident", want: "site", stmt: "container-ident"})
+		g.line("container site {")
+		g.ind += 2
+		g.line("uses gr {")
+		g.ind += 2
+		g.line("refine rc/rl {")
+		g.ind += 2
+		g.musts(sp + ".children.0.children.0")
+		g.descRef(sp + ".children.0.children.0")
+		g.ind -= 2
+		g.line("}")
+		g.line("refine rc {")
+		g.ind += 2
+		g.descRef(sp + ".children.0")
+		g.musts(sp + ".children.0")
+		g.ind -= 2
+		g.line("}")
+		g.ind -= 2
+		g.line("}")
+		g.ind -= 2
+		g.line("}")
+	}
 	if g.r.Intn(2) == 0 {
 		g.line("rpc r1 {")
 		g.ind += 2
